@@ -10,7 +10,7 @@ TECHNIQUE = "deterministic simulation; a shadow list of accepted placements comp
 BUDGET = {"quick": {"runs": 10000, "wall": 45}, "thorough": {"runs": 500000, "wall": 900}}
 RULE = "one evaluation = one seeded backtest: placements, replacements, completions and closures across 2-3 strategies, 1-2 clients and several selections; non-trivial = a replacement order was inserted or two strategies traded two or more selections; distinct = distinct scenario digests"
 ASSUMPTIONS = [
-    "75% World A backtests (simulated exchange), 25% World B live sessions against the exchange double (legitimate replies and injected API faults, no restarts)",
+    "75% World A backtests (simulated exchange), 25% World B live sessions against the exchange double (legitimate replies and injected API faults, no restarts; in some sessions bets of 'another instance' of a strategy appear at the exchange and are adopted at run time, and one market may close part-way and stay registered)",
     "observation points: every status change, every request, every package and its execution, end of every update",
 ]
 from . import C11 as _c11
